@@ -273,7 +273,7 @@ def h01d_shards(tier):
     for names in ((2, 3) if tier == "thorough" else (2,)):
         for padr in ((0, 1), (0x3FF6, 0x4001)):
             for strict in (True, False):
-                out.append({"names": names, "pad": padr, "strict": strict, "_timeout": 400, "_path_timeout": 60})
+                out.append({"names": names, "pad": padr, "strict": strict, "_timeout": 400 if names == 2 else 2400, "_path_timeout": 60})
     return out
 
 
